@@ -128,6 +128,22 @@ pub fn canon_labels(lab: &[usize]) -> Vec<usize> {
         .collect()
 }
 
+/// Same canonical form as `canon_labels`, O(n) for labels < 2n (large sets).
+pub fn canon_labels_fast(lab: &[usize]) -> Vec<usize> {
+    let m = lab.iter().max().map_or(0, |m| m + 1);
+    let mut map = vec![usize::MAX; m];
+    let mut next = 0;
+    lab.iter()
+        .map(|&l| {
+            if map[l] == usize::MAX {
+                map[l] = next;
+                next += 1;
+            }
+            map[l]
+        })
+        .collect()
+}
+
 #[derive(Clone, Copy, Debug)]
 pub enum Stop {
     /// merge until at most this many clusters are left
